@@ -19,9 +19,16 @@ func c12RunSched(w *server.VWorld, sc *server.SchedScenario, prefix []int, horiz
 	}
 	for _, op := range sc.Pre {
 		var err error
-		if op.K == "dup" {
+		switch op.K {
+		case "dup":
 			err = h.VInjectDuplicate("A", op.Ents[0].ID)
-		} else {
+		case "compact":
+			err = c12Compact(w, h, "A", op.N)
+		case "delete":
+			err = w.Dsm.DeleteDataset(h.DsName(op.DS))
+		case "create":
+			_, err = w.Dsm.CreateDataset(h.DsName(op.DS), nil)
+		default:
 			err = h.ApplyWrite(op)
 		}
 		if err != nil {
@@ -81,9 +88,12 @@ func c12RunSched(w *server.VWorld, sc *server.SchedScenario, prefix []int, horiz
 		m.Create("A")
 		m.Create("B")
 		for _, op := range sc.Pre {
-			if op.K == "dup" {
+			switch op.K {
+			case "dup":
 				m.ForceDup("A", op.Ents[0].ID)
-			} else {
+			case "compact":
+				m.Compact("A")
+			default:
 				hh.ModelApply(op)
 			}
 		}
@@ -155,6 +165,9 @@ func c12Sched(r *engine.Run) {
 		{Name: "M1-compact-vs-write-on-removable-latest", Pre: []server.VOp{w("v1r2"), dup}, Threads: [][]server.VOp{{{K: "compact", N: 1}}, {w("v2r2")}}},
 		{Name: "M2-compact-vs-equal-write", Pre: []server.VOp{w("v1"), w("v2"), dup}, Threads: [][]server.VOp{{{K: "compact", N: 100000}}, {w("v2")}}},
 		{Name: "M3-compact-vs-write-no-duplicates", Pre: []server.VOp{w("v1r2"), w("v2r2")}, Threads: [][]server.VOp{{{K: "compact", N: 2}}, {w("v1r2")}}},
+		// the worker has compacted the name before, the dataset was deleted and created again since
+		{Name: "M5-compact-vs-write-after-recreate", Pre: []server.VOp{w("v1r2"), dup, {K: "compact", N: 1}, {K: "delete", DS: "A"}, {K: "create", DS: "A"}, w("v1r2"), dup},
+			Threads: [][]server.VOp{{{K: "compact", N: 1}}, {w("v2r2")}}},
 		{Name: "M4-compact-vs-delete-write-middle-duplicate", Pre: []server.VOp{w("v1"), dup, w("v2")}, Threads: [][]server.VOp{{{K: "compact", N: 1}}, {w("dv1")}}},
 	}
 	for _, sc := range scs {
